@@ -325,6 +325,10 @@ def eval_randgraph(h, fn, count, edge, connectivity, ensurelink, rmode, smode):
         if not 0 <= k <= len(items):
             raise Raised(B.mkexc("ValueError", "Sample larger than population or is negative"))
         samples.append(k)
+        if smode == "rotate":
+            off = len(samples) % len(items) if items else 0
+            rot = items[off:] + items[:off]
+            return Seq(rot[:k], "list")
         return Seq(items[:k] if smode == "first" else items[len(items) - k:], "list")
 
     h.w.ext_overrides["random.randint"] = Builtin("random.randint", randint)
@@ -372,7 +376,7 @@ def run(ctx):
     f = prog.func(FN)
     res.analysed = common.analysed(ctx, [FN, "edgegraph.builder.adjlist.load_adj_dict"])
     res.rule_text = ("SAMPLE-BOUND / ENSURE bound obligations at every random.sample site for both connectivity paths (symbolic in count >= 1); abstract evaluation of randgraph for "
-                     "count in the scope x edge type x connectivity in {default, 0, 0.5, 1} x ensurelink x random at its extremes (randint lo/hi, sample first/last)")
+                     "count in the scope x edge type x connectivity in {default, 0, 0.5, 1} x ensurelink x random at its extremes (randint lo/hi, sample first/last/rotating window)")
     res.trusted_base = common.TRUSTED_AE + ["bound prover transfer rules (rules/c20.py): min/max/int/*,/ randint <= upper argument, loop variable of range(count) in [0, count-1], count >= 1, connectivity in [0, 1] when given"]
     res.assumptions = ["count is an int >= 1", "connectivity in [0, 1] or None", "the random module behaves as documented (sample raises when k > len(population))"]
     sites = find_sample(f.node)
@@ -404,7 +408,7 @@ def run(ctx):
     n = 0
     for count in counts:
         edges = ("DirectedEdge", "UnDirectedEdge", "SymTwo") if count <= 4 else ("DirectedEdge",)
-        for edge, conn, ens, rmode, smode in itertools.product(edges, (None, 0, 0.5, 1), (True, False), ("lo", "hi"), ("first", "last")):
+        for edge, conn, ens, rmode, smode in itertools.product(edges, (None, 0, 0.5, 1), (True, False), ("lo", "hi"), ("first", "last", "rotate")):
             if count > 6 and (smode == "last" or conn == 0.5 and rmode == "lo"):
                 continue
             try:
